@@ -185,7 +185,7 @@ def run(ctx: Ctx) -> None:
     ctx.check(okj, "L6", "load_includes: split / join", repo.loc("parser", where), f"separator {sep!r}", why)
 
     # ---- L3 --------------------------------------------------------------------------------------
-    ctx.rule("L3", "every open()/codecs.open() call in the package passes encoding='utf-8'", 5)
+    ctx.rule("L3", "every open()/codecs.open() call in the package passes encoding='utf-8'", 3)
     for qual, fn in repo.all_functions():
         mod = qual.split(".")[0]
         for c in calls_in(fn):
